@@ -94,4 +94,20 @@ PROPS = {
         "level_text": "Machine-checked Lean 4 theorems about the model's get(): a zero-wait get is never suspended waiting for a slot in any reachable state (C10_zero_wait_never_waits, invariant) and its acquisition step decides at once between Closed / Timeout(Wait) / slot (C10_zero_wait_decides); when a finite wait deadline passes, an already assigned slot wins, otherwise Timeout(Wait) and the waiter is un-registered (C10_wait_deadline); a create timeout yields Timeout(Create) and the next unwind step releases the slot; a recycle timeout is exactly a rejected object; without runtime per-call recycle / finite wait / create timeouts give NoRuntimeSpecified without touching semaphore, queue or objects, and build() fails iff a timeout is configured without runtime (C10_no_runtime, C10_build); Timeout(Recycle) is never produced. Deadline orderings are the interleavings of the `deadline` action with the others, so the theorems cover every ordering. Tied to the code by the correspondence run, which here includes an EXHAUSTIVE table ({none,zero,finite}^3 x runtime x 11 situation/ordering variants = 594 histories on a paused tokio clock, plus all 54 build() combinations) and an independent cause-based result oracle.",
         "level_note": "tokio's timer (fires after the deadline, inner future polled first) is trusted and validated by the table run on a paused clock. The unmanaged pool's single timeout is covered under C05/C12's model (see there). Axioms: propext, Classical.choice, Quot.sound only. The recycle-timeout-without-runtime defect of the pinned tree was repaired (fix: 526ef3d).",
     },
+    "C03": {
+        "title": "Abandoning get() at any suspension point is harmless",
+        "modules": ["DeadpoolVerif.Props.C03"],
+        "theorems": [
+            "DeadpoolVerif.C03_as_if_never_called", "DeadpoolVerif.C03_as_if_never_called_run",
+            "DeadpoolVerif.C03_discarded_detached_once", "DeadpoolVerif.solo_run", "DeadpoolVerif.solo_step",
+            "DeadpoolVerif.reach_run", "DeadpoolVerif.run_acct", "DeadpoolVerif.run_link", "DeadpoolVerif.run_conserve",
+        ],
+        "projection": BASE + SEM + CNT + ["idle", "out", "live", "ev"],
+        "profiles": {"quick": [("cancel", 900), ("cancel-nr", 400), ("faults", 300)],
+                     "thorough": [("cancel", 15000), ("cancel-nr", 8000), ("faults", 6000), ("timeouts", 4000)]},
+        "monitor": "C03",
+        "design_ref": "DESIGN.md §6 C03",
+        "level_text": "Machine-checked Lean 4 theorems: (1) the invariants Acct (token/size/users accounting), Link (waiter registration) and Conserve (every object id in exactly one place; detach exactly once) are preserved by `cancel` and `panic` at every program counter where they are enabled - the Pc datatype enumerates every await point of get() - so no token, size slot or users count stays reserved in any schedule with any number of concurrent tasks; (2) differential theorem C03_as_if_never_called: from ANY reachable state, a get() that runs alone through ANY sequence of outcomes (unbounded: it may reject arbitrarily many idle objects, be suspended anywhere, be cancelled or panic anywhere) and ends without an object leaves the semaphore EQUAL to what it was, users and the checked-out set equal, the idle queue a sub-list, size (hence status()) reduced exactly by the idle objects discarded; (3) C03_discarded_detached_once: each discarded idle object and each object created by the call was detached exactly once during the call and is gone for good. Tied to the code by the correspondence run (cancel/panic forced at every suspension kind) and by a solo-differential monitor on the real pool that compares hook snapshots before/after every get() that ran alone.",
+        "level_note": "The differential theorem is for a call that runs alone between its start and its end (other operations may be parked at any point, they just do not move); under concurrency the statement is the invariant form (1). Assumes Rust's drop order of async-fn state as validated in DESIGN §9. Axioms: propext, Classical.choice, Quot.sound only.",
+    },
 }
